@@ -323,6 +323,45 @@ func mortonTrace(args []string) int {
 			}
 		}
 	}
+	// ... and at exactly 32 levels (WebMercatorQuad 20) the largest address 2^32-1 still fits: a vertex in the last column / row of
+	// the pixel grid must be accepted and get a key (the converse: nothing that fits may be reported)
+	if wm, err := tms20.LoadEmbeddedTileMatrixSet("WebMercatorQuad"); err == nil {
+		if dg, derr := loadDocGeom("WebMercatorQuad"); derr == nil && dg.level(20) == 32 {
+			minX, _ := dg.MinX.Float64()
+			minY, _ := dg.MinY.Float64()
+			span, _ := dg.Span0.Float64()
+			_, dev, _, serr := pointindex.DeviationStats(wm, 20)
+			if serr == nil {
+				grid := span - math.Abs(dev)                // what the 2^32 truncated pixels cover
+				last := grid * (1 - 0.75/math.Ldexp(1, 32)) // three quarters into the last pixel
+				for i := 0; i < 6; i++ {
+					fx, fy := rng.Float64()*grid*0.99, rng.Float64()*grid*0.99
+					switch i % 3 {
+					case 0:
+						fx = last
+					case 1:
+						fy = last
+					default:
+						fx, fy = last, last
+					}
+					pt := geom.Point{minX + fx, minY + fy}
+					reported := func() (rep bool) {
+						defer func() {
+							if recover() != nil {
+								rep = true
+							}
+						}()
+						ix, ierr := pointindex.FromTileMatrixSet(wm, 20)
+						if ierr != nil {
+							return true
+						}
+						return ix.InsertPoint(pt) != nil
+					}()
+					w.put(map[string]any{"op": "deep", "level": 32, "wide": false, "reported": reported})
+				}
+			}
+		}
+	}
 	for i := 0; i < *n; i++ {
 		z := uint(rng.Uint64())
 		if i%3 == 0 {
